@@ -44,3 +44,37 @@ func VerifCSSReaccept(n int) {
 }
 
 func verifCSSReacceptFinding(out []byte) {}
+
+var verifDeclProps = []string{"url", "src", "background", "background-image", "font-family", "font", "content", "filter", "margin", "color", "flex", "unicode-range", "box-shadow", "-ms-filter"}
+var verifDeclFuncs = []string{"local", "url", "rgb", "rgba", "hsl", "calc", "var", "format", "x", ""}
+
+// VerifCSSDeclTotal (C10): a{P:F(ARG<end> with P from 14 specially handled properties, F from 10 function names (or none),
+// ARG = n arbitrary bytes over a CSS punctuation alphabet and four ways to end the input (closed, truncated): no panic.
+func VerifCSSDeclTotal(n int) {
+	arg := vBytes("arg", n)
+	for i := range arg {
+		c := arg[i]
+		vAssume(vB2I(c == '\'')+vB2I(c == '"')+vB2I(c == 'a')+vB2I(c == '1')+vB2I(c == ',')+vB2I(c == '%')+vB2I(c == ')')+vB2I(c == '(')+vB2I(c == ' ')+vB2I(c == '\\')+vB2I(c == '/')+vB2I(c == '#')+vB2I(c == '-')+vB2I(c == '.')+vB2I(c == ';')+vB2I(c == '!') != 0)
+	}
+	prop := verifDeclProps[vChoice("prop", len(verifDeclProps))]
+	fn := verifDeclFuncs[vChoice("fn", len(verifDeclFuncs))]
+	end := []string{")}", ")", "", "}", ";}"}[vChoice("end", 5)]
+	in := make([]byte, 0, n+64)
+	in = append(append(append(in, "a{"...), prop...), ':')
+	if fn != "" {
+		in = append(append(in, fn...), '(')
+	}
+	in = append(in, arg...)
+	in = append(in, end...)
+	inline := vBool("inline")
+	var params map[string]string
+	if inline {
+		params = map[string]string{"inline": "1"}
+		in = in[2:]
+	}
+	w := &vWriter{}
+	err := (&Minifier{}).Minify(minify.New(), w, &vReader{b: in}, params)
+	vOutput("out", w.buf)
+	vOutputBool("err", err != nil)
+	vReach("end")
+}
